@@ -29,6 +29,7 @@ for dp, dn, fns in os.walk(os.path.join(root, "canopen")):
                     sh = _binding_shapes(n)
                     if sh:
                         d[q] = sh
+                    walk(n, q + ".")
         walk(tree, "")
         if d:
             out[rel] = d
